@@ -40,7 +40,8 @@ TRUSTED = ["basicnode builder behaviour (AssignNode(nil) stores nil, root builde
            "the driver instantiates mklink with the (block -> CID) table observed from the real link system"]
 RULE = ("graphs: lib.Rng.GenVal values split bottom-up into 0-3 dag-cbor blocks in a memstore LinkSystem (plus dangling "
         "links); per graph 1-5 transforms (existing position, new key, '-', missing parents, beyond bounds, scalar early, "
-        "odd index spellings, through links; callbacks const/identity/delete/wrap; createParents on/off) or one "
+        "odd index spellings, through links and chains of link-only blocks, segments string- or int-stored, numeric-looking "
+        "map keys; callbacks const/identity/delete/wrap; createParents on/off) or one "
         "WalkTransforming with a selector of the modelled fragment; fixed corpus of boundary cases and finding witnesses "
         "first; distinct = distinct (blocks, root, steps); non-trivial = at least one step beyond the root")
 SEARCH_SEEDS = [1000003, 2000003]
